@@ -812,6 +812,39 @@ func (c *SpecCtx) call(e *SCall) Val {
 		x.S.DeclareFun("errors_is", []string{"Int", "Int"}, "Bool")
 		x.S.Axiom("errors_is", []string{"errors_is"}, "(forall ((e Int) (t Int)) (! (and (=> (and (= e t)) (errors_is e t)) (=> (and (= e 0) (not (= t 0))) (not (errors_is e t)))) :pattern ((errors_is e t))))")
 		return specVal("(errors_is "+a.S+" "+b.S+")", "Bool")
+	case "onlychanged":
+		// onlychanged(p, f1, f2, ...): every field of *p other than f1.. has its old value
+		pv := arg(0)
+		if pv.T == nil {
+			sfail("onlychanged: untyped")
+		}
+		pt, ok := pv.T.Underlying().(*types.Pointer)
+		if !ok {
+			sfail("onlychanged needs a pointer to a struct")
+		}
+		st, ok := pt.Elem().Underlying().(*types.Struct)
+		if !ok || c.old == nil {
+			sfail("onlychanged needs a pointer to a struct and an old state")
+		}
+		except := map[string]bool{}
+		for _, a := range e.Args[1:] {
+			id, ok := a.(*SIdent)
+			if !ok {
+				sfail("onlychanged: field names expected")
+			}
+			except[id.Name] = true
+		}
+		si := x.te.structOf(pt.Elem())
+		cur := x.heapLoad(c.st, pt.Elem(), "(p_reg "+pv.S+")", "(p_idx "+pv.S+")")
+		old := x.heapLoad(c.old, pt.Elem(), "(p_reg "+pv.S+")", "(p_idx "+pv.S+")")
+		var parts []string
+		for i := 0; i < st.NumFields(); i++ {
+			if except[st.Field(i).Name()] {
+				continue
+			}
+			parts = append(parts, Eq("("+si.fields[i]+" "+cur+")", "("+si.fields[i]+" "+old+")"))
+		}
+		return specVal(And(parts...), "Bool")
 	case "mk_nilptr":
 		return Val{S: "(mk_ptr 0 0)", Bltn: "Ptr"}
 	case "fid":
